@@ -87,19 +87,27 @@ namespace chaiscript {
     };
 
     template<typename T>
-    bool contains_var_decl_in_scope(const eval::AST_Node_Impl<T> &node) noexcept {
-      if (node.identifier == AST_Node_Type::Var_Decl || node.identifier == AST_Node_Type::Assign_Decl
-          || node.identifier == AST_Node_Type::Reference) {
-        return true;
-      }
+    bool contains_var_decl_in_scope(const eval::AST_Node_Impl<T> &t_node) {
+      // walks the tree with a work list, not by recursion: an operator chain (a && a && ...) makes a tree as deep as the chain is long
+      std::vector<const eval::AST_Node_Impl<T> *> pending{&t_node};
 
-      const auto num = child_count(node);
+      while (!pending.empty()) {
+        const auto &node = *pending.back();
+        pending.pop_back();
 
-      for (size_t i = 0; i < num; ++i) {
-        const auto &child = child_at(node, i);
-        if (child.identifier != AST_Node_Type::Block && child.identifier != AST_Node_Type::For
-            && child.identifier != AST_Node_Type::Ranged_For && contains_var_decl_in_scope(child)) {
+        if (node.identifier == AST_Node_Type::Var_Decl || node.identifier == AST_Node_Type::Assign_Decl
+            || node.identifier == AST_Node_Type::Reference) {
           return true;
+        }
+
+        const auto num = child_count(node);
+
+        for (size_t i = 0; i < num; ++i) {
+          const auto &child = child_at(node, i);
+          if (child.identifier != AST_Node_Type::Block && child.identifier != AST_Node_Type::For
+              && child.identifier != AST_Node_Type::Ranged_For) {
+            pending.push_back(&child);
+          }
         }
       }
 
